@@ -543,6 +543,11 @@ func (fv *FuncVC) atReturn(ret *ssa.Return) {
 			label = fmt.Sprintf("%d", i+1)
 		}
 		fv.oblige("ensures", label+"#"+retID, fv.propsFor(e), t.T, e.Src, fv.posStr(ret.Pos()))
+		// postconditions are conjuncts: once one is established it may be used for the later ones
+		// (clauses labelled kf-... are recorded known findings, expected to fail: never assumed)
+		if !strings.HasPrefix(label, "kf-") {
+			fv.assume(t.T)
+		}
 	}
 	if con.HasMod {
 		fv.frameObligations(env, retID)
